@@ -48,6 +48,8 @@ var (
 	gbig      int64 = 1 << 62
 	gcc       chan int
 	blk       = func() {}
+	req       = make(chan bool)
+	ack       = make(chan bool)
 )
 '''
 
@@ -72,7 +74,8 @@ def gen_program(r, opts):
                  ("call", 1.5 if fi + 1 < nfun else 0), ("callclo", 1.2 if depth < 5 else 0),
                  ("defer", 1.0 if (fi + 1 < nfun and ndef < 4) else 0), ("deferclo", 3.0 if (depth < 5 and ndef < 4) else 0),
                  ("panic", (2.0 * (opts["calm"] if in_deferred else 1.0))), ("return", 0.4),
-                 ("goexit", 0.5 if opts["goexit"] else 0)]
+                 ("goexit", 0.5 if opts["goexit"] else 0),
+                 ("block", (opts.get("block", 0.0) * (2.0 if in_deferred else 1.0)))]
             tot = sum(x for _, x in w)
             u, acc, kind = r.random() * tot, 0.0, "trace"
             for k, x in w:
@@ -110,6 +113,8 @@ def gen_program(r, opts):
                 out.append(("return",))
             elif kind == "goexit":
                 out.append(("goexit",))
+            elif kind == "block":
+                out.append(("block",))
         return out
 
     return [body(fi, 0, False, [r.choice([6, 10, 14, 20])]) for fi in range(nfun)]
@@ -183,6 +188,9 @@ def go_body(body, ind, force_blocking):
             L.append(t + "return")
         elif k == "goexit":
             L.append(t + "runtime.Goexit()")
+        elif k == "block":
+            L.append(t + "req <- true")
+            L.append(t + "<-ack")
     return L
 
 
@@ -240,6 +248,12 @@ def go_program(prog, flavour):
 	gcc = make(chan int)
 	close(gcc)
 	done := make(chan bool, 1)
+	go func() { // partner of the `block` statements: every request really suspends the requester
+		for {
+			<-req
+			ack <- true
+		}
+	}()
 	go func() {
 		defer func() { done <- true }()
 		x := f0(0)
@@ -285,6 +299,8 @@ def coq_body(body):
             out.append("SReturn")
         elif k == "goexit":
             out.append("SGoexit")
+        elif k == "block":
+            out.append("SBlock")
     return "[" + "; ".join(out) + "]"
 
 
